@@ -83,6 +83,26 @@ class TlcResult:
         return self.rc == 0 and self.violated is None
 
 
+def _tlc_slot():
+    """At most VERIF_TLC_SLOTS (default 6) TLC JVMs at a time across all checks running on this machine
+    (several checks / builders may run concurrently; 62 GB of RAM do not hold 15 model checkers)."""
+    import fcntl
+    n = int(os.environ.get("VERIF_TLC_SLOTS", "6"))
+    if n <= 0:
+        return None
+    d = os.path.join(BUILD, ".tlcslots")
+    os.makedirs(d, exist_ok=True)
+    while True:
+        for i in range(n):
+            f = open(os.path.join(d, "slot%d" % i), "w")
+            try:
+                fcntl.flock(f, fcntl.LOCK_EX | fcntl.LOCK_NB)
+                return f
+            except OSError:
+                f.close()
+        time.sleep(0.5)
+
+
 def tlc(spec, cfg, workers=None, timeout=600, env=None, simulate=None, depth=None, metaname=None,
         dfs=False, coverage=False, heap=None, extra=None, seed=None):
     """Run TLC on spec (path relative to SPEC dir) with cfg. Returns TlcResult."""
@@ -95,7 +115,7 @@ def tlc(spec, cfg, workers=None, timeout=600, env=None, simulate=None, depth=Non
     jopts = []
     if dfs:
         jopts.append("-Dtlc2.tool.queue.IStateQueue=StateDeque")
-    jopts.append("-Xmx%s" % (heap or os.environ.get("VERIF_TLC_HEAP", "8g")))
+    jopts.append("-Xmx%s" % (heap or os.environ.get("VERIF_TLC_HEAP", "6g")))
     e = dict(env or {})
     if jopts:
         e["JAVA_TOOL_OPTIONS"] = " ".join(jopts)
@@ -111,9 +131,14 @@ def tlc(spec, cfg, workers=None, timeout=600, env=None, simulate=None, depth=Non
     if extra:
         cmd += extra
     cmd.append(specpath)
-    t0 = time.time()
-    rc, out, err = sh(cmd, timeout=timeout, env=e, cwd=os.path.dirname(specpath))
-    r.wall = time.time() - t0
+    slot = _tlc_slot()
+    try:
+        t0 = time.time()
+        rc, out, err = sh(cmd, timeout=timeout, env=e, cwd=os.path.dirname(specpath))
+        r.wall = time.time() - t0
+    finally:
+        if slot:
+            slot.close()
     r.rc = rc
     r.out = out + ("\n" + err if err and err != "timeout" else "")
     r.timeout = (rc == 124)
